@@ -109,6 +109,15 @@ def Alts.names : Alts → List String
   | .nil => []
   | .cons n _ r => n :: r.names
 
+/-- clear the unused bits of the last octet and drop surplus octets (`clean_bit_string_value`) -/
+def cleanBits (data : Bytes) (n : Nat) : Bytes := packBits ((bytesToBits data).take n)
+
+/-- `member.is_default(value)`: plain equality, except BIT STRING which compares cleaned values -/
+def isDefault (t : Ty) (v d : Val) : Bool :=
+  match t, v, d with
+  | .bitString _, .bits a n, .bits b m => n == m && cleanBits a n == cleanBits b m
+  | _, _, _ => v == d
+
 /-- dictionary lookup (first match, like a Python dict built from the pairs) -/
 def lookup {α : Type} (name : String) : List (String × α) → Option α
   | [] => none
